@@ -122,3 +122,8 @@ package connection
 //@     assert[C15:copy-backend-bytes-to-the-client] copies == 0 && arg0 == box(frontendConn) && arg1 == backendConn
 //@     do copies = copies + 1
 //@   ensures[C15:one-copy-loop-per-direction] copies == 1
+
+//@ func DialWebsocket props(C15,C16,C07)
+//@   requires backendURL != nil
+//@   assigns nothing
+//@   ensures[C15:dialled-connection-or-error] r1 == nil ==> r0 != nil
